@@ -327,7 +327,7 @@ def run_shard(desc):
         return run_atheris(desc[1], desc[2], st)
     _, p, k, tier, seed = desc
     label, s, docs = schema_pool()[p]
-    n = 600 if tier == 'thorough' else 70
+    n = 1500 if tier == "thorough" else 220
     strat = hst.tuples(hst.integers(0, len(docs) - 1), st_mutations())
 
     def body(v, st_):
